@@ -64,7 +64,10 @@ def file_spec(desc):
                 fl = np.exp(g.normal(np.log(200. * (j + 1)), 0.6, N))
                 fls.append(np.clip(np.round(1024 / 4. * np.log10(fl)), 0, 1023))
             else:
-                fls.append(g.normal(180. * (j + 1), 160., N))        # includes non-positive events
+                x = g.normal(180. * (j + 1), 160., N)                 # includes non-positive events
+                if desc.get('clip0') and j % 2 == 0:
+                    x = np.clip(x, 0.0, None)                         # exact zeros, no negatives
+                fls.append(x)
         ev = np.c_[fsc, ssc, np.c_[tuple(fls)], np.arange(N) * 2 + 5]
         if dt == 'I':
             ev = np.round(ev).astype(np.int64)
@@ -73,8 +76,10 @@ def file_spec(desc):
             idx = g.choice(N, size=min(N, 4 * k), replace=False)
             ev[idx[:k], 0] = 1023
             ev[idx[k:2 * k], 1] = 0
-            ev[idx[2 * k:3 * k], 2] = 1023
-            ev[idx[3 * k:4 * k], 2] = 0
+            for j in range(nfl):
+                jj = g.choice(N, size=min(N, 2 * k), replace=False)
+                ev[jj[:k], 2 + j] = 1023
+                ev[jj[k:], 2 + j] = 0
     if dt == 'I':
         widths = [16] * D
         ranges = [1024] * (D - 1) + [65536 * 4]
@@ -103,13 +108,15 @@ def file_bytes(desc):
     return fcs_ref.build(file_spec(desc))[0]
 
 
-def gen_experiment(rng, faults=True, max_samples=5, max_beads=2, small=False):
-    """Returns a JSON-able experiment: instruments, files, beads rows, sample rows (with fault annotations)."""
-    n_inst = rng.wchoice([(1, 5), (2, 3), (3, 1)])
+def gen_experiment(rng, faults=True, max_samples=5, max_beads=2, small=False, plan=None):
+    """Returns a JSON-able experiment: instruments, files, beads rows, sample rows (with fault annotations).
+    `plan` (optional) forces the instrument, fault kind and calibration content of every row:
+    {'n_inst': 2, 'beads': [{'inst': 0, 'fault': None, 'mef': 1}, ...], 'samples': [{'inst': 0, 'fault': 'few_events'}, ...]}"""
+    n_inst = plan['n_inst'] if plan else rng.wchoice([(1, 5), (2, 3), (3, 1)])
     insts = copy.deepcopy(INSTRUMENTS[:n_inst])
     files = {}
     exp = {'instruments': insts, 'files': files, 'beads': [], 'samples': []}
-    nb = rng.randint(0, max_beads)
+    nb = len(plan['beads']) if plan else rng.randint(0, max_beads)
     fid = [0]
 
     def new_file(kind, inst, n, **kw):
@@ -123,10 +130,11 @@ def gen_experiment(rng, faults=True, max_samples=5, max_beads=2, small=False):
         return name
 
     for k in range(nb):
-        inst = rng.choice(insts)
+        bp = plan['beads'][k] if plan else None
+        inst = insts[bp['inst']] if bp else rng.choice(insts)
         fl = inst['fl']
         npop = rng.choice([5, 6])
-        mef_ch = [fl[0]] if rng.chance(0.6) else list(fl[:2])
+        mef_ch = [fl[0]] if (rng.chance(0.6) or bp) else list(fl[:2])
         row = {'ID': 'B%d' % (k + 1), 'Instrument ID': inst['ID'], 'Gate Fraction': rng.choice([0.5, 0.65, 0.8]),
                'Clustering Channels': ', '.join(mef_ch if rng.chance(0.7) else [fl[0]]), 'fault': None, 'mef': {}}
         for c in mef_ch:
@@ -136,7 +144,9 @@ def gen_experiment(rng, faults=True, max_samples=5, max_beads=2, small=False):
             row['mef'][c] = ', '.join(vals)
         n = rng.choice([2000, 2400])
         f = rng.choice(BEAD_FAULTS) if (faults and rng.chance(0.3)) else None
-        if rng.chance(0.12) and f is None:
+        if bp:
+            f = bp['fault']
+        if (rng.chance(0.12) and f is None and not bp) or (bp and not bp['mef']):
             row['mef'] = {}                                      # healthy row without calibration
         if f == 'few_events':
             n = rng.choice([120, 399])
@@ -155,9 +165,10 @@ def gen_experiment(rng, faults=True, max_samples=5, max_beads=2, small=False):
         row['fault'] = f
         exp['beads'].append(row)
 
-    ns = rng.randint(1, max_samples)
+    ns = len(plan['samples']) if plan else rng.randint(1, max_samples)
     for k in range(ns):
-        inst = rng.choice(insts)
+        sp = plan['samples'][k] if plan else None
+        inst = insts[sp['inst']] if sp else rng.choice(insts)
         fl = inst['fl']
         dt = rng.wchoice([('I', 7), ('F', 3)])
         row = {'ID': 'S%d' % (k + 1), 'Instrument ID': inst['ID'], 'Beads ID': None,
@@ -180,10 +191,15 @@ def gen_experiment(rng, faults=True, max_samples=5, max_beads=2, small=False):
                 if u == 'MEF':
                     row['Beads ID'] = gb['ID']
         f = rng.choice(SAMPLE_FAULTS) if (faults and rng.chance(0.35)) else None
+        if sp:
+            f = sp['fault']
         n = rng.choice([800, 1000]) if not small else 760
         amp = 'log'
         # faults that need a particular context fall back to a context-free one
-        fl0 = fl[0]
+        fl0 = rng.choice(fl)
+        if f in ('bad_units', 'beads_failed', 'beads_no_mef') and rng.chance(0.5):
+            for c in fl[:fl.index(fl0)]:
+                row['units'].pop(c, None)                # fault in a later channel, earlier cells empty
         if f in ('beads_failed',) and not [b for b in exp['beads'] if b['fault'] is not None]:
             f = 'bad_units'
         if f == 'beads_no_mef' and not [b for b in exp['beads'] if b['fault'] is None and not b['mef']]:
@@ -238,14 +254,14 @@ def gen_experiment(rng, faults=True, max_samples=5, max_beads=2, small=False):
             c = sorted(gb['mef'])[0]
             row['units'][c] = 'MEF'
             volt = volt + 75
-        row['File Path'] = new_file('cells', inst, n, datatype=dt, volt=volt, amp=amp,
+        row['File Path'] = new_file('cells', inst, n, datatype=dt, volt=volt, amp=amp, clip0=bool(dt == 'F' and rng.chance(0.4)),
                                     version=rng.choice(['FCS2.0', 'FCS3.0', 'FCS3.1']),
                                     byteord=rng.choice(['1,2,3,4', '4,3,2,1']))
         if f == 'file_not_found':
             row['File Path'] = 'nowhere/none_%d.fcs' % k
         row['fault'] = f
         exp['samples'].append(row)
-    if rng.chance(0.5):
+    if rng.chance(0.5) and not plan:
         rng.shuffle(exp['samples'])
     return exp
 
